@@ -59,6 +59,8 @@ def decl_specs(tier):
     # nesting packet-in-sequence-in-packet twice
     for c in ('sr', 'sur', 'or', 'rs', 'rbag', 'srs'):
         add([c], 'c')
+    for c in ('i1', 'i3', 'dn', 'm0', 'b35', 'sn', 'su', 'sr', 'o1', 'r1', 'rs', 'sdn'):
+        specs.append({'names': [c], 'wrapper': 'd'})
     return specs
 
 
